@@ -94,7 +94,9 @@ def h_container(V, pattern, target, sym_orders=False, falsify=False):
         scope = [n for n, b in zip(t._atoms, bits) if b]
         V.assume(len(scope) > 0)
     af = bool(V.bool('automorphism_filter'))
-    got = [tuple(sorted(m.items())) for m in q.get_mapping(t, automorphism_filter=af, searching_scope=scope)]
+    # collected first and read afterwards: each returned mapping must be an object of its own
+    collected = list(q.get_mapping(t, automorphism_filter=af, searching_scope=scope))
+    got = [tuple(sorted(m.items())) for m in collected]
     ref = brute_force(q._atoms, q._bonds, t._atoms, t._bonds, t.connected_components,
                       lambda x, y: bool(x == y), lambda x, y: bool(x == y))
     if scope is not None:
@@ -173,7 +175,40 @@ def h_automorphism(V, shape, sym_orders=False):
     V.observe('n', len(got))
 
 
-HARNESSES = {'core': h_core, 'container': h_container, 'lazy_product': h_lazy_product, 'automorphism': h_automorphism}
+STEREO_Q = {
+    'bond': {None: 'FC=CCl', True: 'F/C=C\\Cl', False: 'F/C=C/Cl'},
+    'atom': {None: 'FC(Cl)(Br)I', True: 'F[C@](Cl)(Br)I', False: 'F[C@@](Cl)(Br)I'},
+    # the stereo atom does not open a ring closure here: the library's SMARTS dialect orders the neighbours of a query atom
+    # by bond creation (a closure counts where it is closed), which its own reactor tests rely on - not part of the claim
+    'ring_atom': {None: 'O1C(C)CC1', True: 'O1[C@H](C)CC1', False: 'O1[C@@H](C)CC1'},
+}
+
+
+def h_query_stereo(V, kind, as_query=True, falsify=False):
+    """a stereo label on the pattern restricts the match to images with the same configuration; an unlabelled pattern
+    matches every configuration; the target goes through every random-order spelling"""
+    import chython
+    from vlib.spell import respell
+    texts = STEREO_Q[kind]
+    qs = V.choice('pattern_label', [None, True, False])
+    ts = V.choice('target_label', [None, True, False])
+    q = chython.smarts(texts[qs].replace('[C@H]', '[C@;h1]').replace('[C@@H]', '[C@@;h1]')) if as_query \
+        else chython.smiles(texts[qs])
+    text, order = respell(V, chython.smiles(texts[ts]))
+    t = chython.smiles(text)
+    want = qs is None or qs == ts or not as_query      # molecule patterns compare constitution only
+    if falsify:
+        want = not want
+    collected = list(q.get_mapping(t))
+    info = {'pattern': texts[qs], 'target': text, 'query': as_query}
+    V.prove(bool(collected) == want, 'a labelled pattern matches exactly the images with the same configuration; an '
+            'unlabelled one matches all', info)
+    V.prove((q <= t) == want, 'a <= b agrees', info)
+    V.prove(len({tuple(sorted(m.items())) for m in collected}) == len(collected), 'no mapping twice', info)
+    V.observe('text', text)
+
+
+HARNESSES = {'query_stereo': h_query_stereo, 'core': h_core, 'container': h_container, 'lazy_product': h_lazy_product, 'automorphism': h_automorphism}
 
 
 def jobs(tier):
@@ -198,6 +233,12 @@ def jobs(tier):
                   'validate_every': 100, 'weight': 1000})
     J.append({'harness': 'container', 'params': {'pattern': 'p2', 'target': 't_p3', 'falsify': True}, 'twin': True,
               'budget_s': 300, 'max_failures': 1, 'validate': False})
+    for kind in STEREO_Q:
+        for asq in (True, False):
+            J.append({'harness': 'query_stereo', 'params': {'kind': kind, 'as_query': asq}, 'budget_s': 600,
+                      'validate_every': 50, 'max_failures': 10})
+    J.append({'harness': 'query_stereo', 'params': {'kind': 'bond', 'falsify': True}, 'twin': True, 'budget_s': 120,
+              'max_failures': 1, 'validate': False})
     for k in (1, 2, 3):
         J.append({'harness': 'lazy_product', 'params': {'k': k}, 'budget_s': 300})
     J.append({'harness': 'lazy_product', 'params': {'k': 2, 'falsify': True}, 'twin': True, 'budget_s': 120, 'max_failures': 1})
